@@ -64,6 +64,9 @@ PROPS = {
         ],
     },
     "C16": {
+        # "for any access pattern ... stays bounded / stays readable": a panic or wrapped index inside the policy is a
+        # violation of the property itself (finding F3 was one), so overflow/shift/division side obligations count
+        "side_is_property": True,
         "verus": ["c16_policy", "c16_sketch"],
         "kani": [
             {"repo_crate": "storage", "kind": "complete", "hook_files": ["storage_tiny_lfu_sketch.rs"],
@@ -126,7 +129,7 @@ PROPS = {
     },
     "C12": {
         "expand": [("derive_fix", "derive_expanded.rs")],
-        "verus": ["c12_generic", "c12_derive"],
+        "verus": ["c12_generic", "c12_derive", "c12_leaf"],
         "kani": [
             {"crate": "c12", "kind": "complete", "harnesses": C12_FAST, "tiers": ("quick", "thorough"), "jobs": 14,
              "bound": "none: full-domain symbolic input, loops unrolled to operand width with unwinding assertions"},
@@ -140,7 +143,8 @@ PROPS = {
         "witness": witness.c12,
         "assumptions": [
             "integers in Verus specifications are mathematical; machine ranges appear explicitly in requires/typing",
-            "Encoder/Decoder trait contracts: every implementor of the traits is assumed to satisfy them; for PostcardEncoder/PostcardDecoder this is what the Kani harnesses (full domain, per width) establish, for an arbitrary tail only through the back-to-back harnesses",
+            "Encoder/Decoder trait contracts: generic impls are verified against ANY implementor that satisfies them; that PostcardEncoder<W>/PostcardDecoder<R> do is proved in unit c12_leaf (every emit_*/read_* except f32/f64, all four LEB128 encoders and readers with loop invariants, zigzag by bit-vector reasoning, for every value and every tail) and re-established independently on the compiled code by the Kani harnesses (full domain, per width)",
+            "c12_leaf: std::io::Write is modelled as an appending writer (Vec<u8>/Cursor<Vec<u8>>), std::io::Read as a RELIABLE in-memory reader (read_exact succeeds iff enough bytes remain, as for &[u8]/Cursor): an I/O error of the underlying stream is outside the property; PostcardDecoder::read_byte (3 lines over read_exact(&mut [u8;1])) carries its contract as external_body; emit_f32/f64, read_f32/f64 are not in the Verus unit (Kani rt_f32/rt_f64)",
             "Plugin and Session are opaque: no impl under contract looks inside them",
             "std collection / wrapper models listed in trusted_base (Cell, Duration, Vec::into_boxed_slice, Arc/Rc<[T]>::from(Vec), u8::from(bool), char::from_u32)",
             "decode contract is completeness on the encoder's image + exact consumption + image equality (w.bytes()==v.bytes()); value equality follows from injectivity of the image, proved for the primitive leaves (lemma_inj_*) and structural for the constructors",
